@@ -452,12 +452,10 @@ def check(ck):
                 for (_tr, out) in res:
                     if out[0] == "raise":
                         got = "raises " + out[1]
-                    elif isinstance(out[1], shape.K) and out[1].v is True:
-                        got = "valid"
                     elif isinstance(out[1], shape.Opaque) and out[1].label == "Fault":
                         got = "Fault"
                     else:
-                        got = repr(out[1])
+                        got = "valid"          # the callers only ask `isinstance(result, Fault)`: any other value accepts the entry
                     want = "valid" if expected_valid else "Fault"
                     desc = "method=%s params=%s markers=%s" % (ml, pl, kl)
                     if got != want:
